@@ -507,21 +507,6 @@ func genHistory(c *h.Ctx) {
 			if v == "-" && w == "-" {
 				w = "0" // generic descriptors belong to C07
 			}
-			if key != "length" && !isCanon(key) {
-				// A stored mode with "not set" trits is replayed as a descriptor by put/freeze/seal; for a
-				// non-canonical numeral that descriptor lands on a different property, which the model's
-				// Boolean storage does not reproduce: such keys get complete descriptors only.
-				if v == "-" {
-					v = genElem(r)
-				}
-				fix := func(t string) string {
-					if t == "-" {
-						return "0"
-					}
-					return t
-				}
-				w, e, cc = fix(w), fix(e), fix(cc)
-			}
 			st = "def/" + kTok(key) + "/" + v + "/" + w + "/" + e + "/" + cc
 			keys = append(keys, "step:def")
 		case k == 8:
